@@ -88,7 +88,7 @@ def replay_phase(ev, rep, work, tier, pid, key_prefix="blockproc"):
                        "predicted": em[0]["res"]}, limit=4)
         for (e, W, what, exp, got) in bad[:5]:
             # reproduce once
-            n2, bad2 = bpbind.replay(binp, work, [e], workers=(W,), tag="again")
+            n2, bad2 = bpbind.replay(binp, work, [e], workers=(workers if what.startswith("results differ") else (W,)), tag="again")
             if bad2:
                 p = work + "/viol_%s_%d.txt" % (variant, W)
                 bpbind.input_file(p, e["input"], e["mb"], W)
@@ -111,13 +111,17 @@ def replay_phase(ev, rep, work, tier, pid, key_prefix="blockproc"):
         n, bad = bpbind.replay_sched(binp, work, em, seeds, workers=2, tag="cs%d" % pi)
         total += n
         for (e, sd, what, exp, got) in bad[:5]:
-            n2, bad2 = bpbind.replay_sched(binp, work, [e], [sd], workers=2, tag="again")
+            n2, bad2 = bpbind.replay_sched(binp, work, [e], [seeds[0], sd] if what.startswith("result under schedule") else [sd], workers=2, tag="again")
             if bad2:
                 p = work + "/viol_sched_%d.txt" % sd
                 bpbind.input_file(p, e["input"], e["mb"], 2)
                 rep.violation("%s-schedule" % key_prefix, "block processor on the controlled pool, schedule seed %d, backlog %d: %s for input %s"
                               % (sd, e["mb"], what, json.dumps(e["input"])), artefact=p,
                               data={"input": e["input"], "seed": sd, "predicted": exp, "real": got})
+    ev.set("real_results_that_differ_from_the_model_but_satisfy_the_properties(spec drift, no alarm)", len(bpbind.DRIFT))
+    if bpbind.DRIFT:
+        print("SPEC-DRIFT (no alarm): %d real block processor results satisfy the properties but differ from BlockProc's prediction, e.g. %s"
+              % (len(bpbind.DRIFT), json.dumps(bpbind.DRIFT[0])[:300]))
     return total
 
 
